@@ -179,6 +179,60 @@ def edge_tours(init, edges, max_len=4000):
     return tours, len(uncovered)
 
 
+def machine_tour_script(cfg="MC_tour"):
+    """edge-covering tours of the machine model's state graph (FFSM2MC with a tiny environment) as a harness script:
+    one implementation test per transition of the model; the recorded trace is then validated like any other"""
+    name = "machine_" + cfg
+    with _graph_lock:
+        if name in _graph_cache:
+            return _graph_cache[name]
+        d = vlib.ensure(os.path.join(vlib.WORK, "tour", name))
+        dot = os.path.join(d, "graph.dot")
+        vlib.ensure(os.path.join(d, "meta"))
+        cmd = ["java", "-XX:+UseSerialGC", "-Xmx6g", "-cp", vlib.TLA_CP, "tlc2.TLC", "-workers", "1", "-noGenerateSpecTE",
+               "-metadir", os.path.join(d, "meta"), "-dump", "dot,actionlabels", dot, "-config", cfg + ".cfg", "FFSM2MC.tla"]
+        r = subprocess.run(cmd, cwd=vlib.SPEC, stdout=subprocess.PIPE, stderr=subprocess.STDOUT, universal_newlines=True, timeout=1800)
+        shutil.rmtree(os.path.join(d, "meta"), ignore_errors=True)
+        if "Model checking completed. No error has been found." not in r.stdout:
+            raise RuntimeError("TLC graph dump failed for %s:\n%s" % (cfg, r.stdout[-1500:]))
+        init, labels, edges = None, {}, []
+        node_re = re.compile(r'^(-?\d+) \[label="(.*)"')
+        edge_re = re.compile(r'^(-?\d+) -> (-?\d+) \[label=')
+        lbl_re = re.compile(r'lbl = \\"([^"\\]*)\\"')
+        with open(dot) as f:
+            for line in f:
+                m = edge_re.match(line)
+                if m:
+                    edges.append((m.group(1), m.group(2)))
+                    continue
+                m = node_re.match(line)
+                if m:
+                    lm = lbl_re.search(line)
+                    labels[m.group(1)] = lm.group(1) if lm else "?"
+                    if init is None and "style = filled" in line:
+                        init = m.group(1)
+        os.remove(dot)
+        tours, left = edge_tours(init, [(u, labels.get(v, "?"), v) for u, v in edges], max_len=100000)
+        lines = []
+        for t in tours:
+            lines.append("reset")
+            cur = None
+            for (_, lbl, _) in t:
+                parts = lbl.split("|")
+                if parts[0] == "call":
+                    if cur is not None:
+                        lines.append(cur[0] + (" | " + " ; ".join(cur[1]) if cur[1] else ""))
+                    cur = ["@0 %s %s %s %s" % (parts[1], parts[2], parts[3], parts[4]), []]
+                elif parts[0] == "cb" and cur is not None:
+                    key, acts = parts[1].split(":", 1)
+                    cur[1].append("%s:%s" % (key, acts))
+            if cur is not None:
+                lines.append(cur[0] + (" | " + " ; ".join(cur[1]) if cur[1] else ""))
+        res = ("\n".join(lines) + "\n", {"model_states": len(labels), "model_transitions": len(edges), "uncovered": left, "tours": len(tours)})
+        _graph_cache[name] = res
+        return res
+
+
 # ----------------------------------------------------------------------------- per-component scripts
 
 PLAN_VALS = [(0, 0), (0, 1), (1, 0)]
